@@ -107,6 +107,27 @@ def lake_build(targets=()):
     return p.returncode == 0, p.stdout
 
 
+def trim_go_cache(limit=20 << 30):
+    """The generated packages are large: every prepared repo state adds some hundred MB to Go's build cache, and a
+    long series of development runs grew it to ~100 GB. Trim it when it passes `limit` (rebuilds are then cold once)."""
+    d = os.environ.get("GOCACHE") or os.path.join(os.path.expanduser("~"), ".cache", "go-build")
+    total = 0
+    try:
+        for sub in os.scandir(d):
+            if sub.is_dir():
+                for f in os.scandir(sub.path):
+                    try:
+                        total += f.stat().st_size
+                    except OSError:
+                        pass
+            if total > limit:
+                break
+    except OSError:
+        return
+    if total > limit:
+        run(["go", "clean", "-cache"], check=False)
+
+
 def gc_work(keep_key):
     """Remove preparations of other repo states (disk is limited)."""
     if not os.path.isdir(WORK):
@@ -127,6 +148,7 @@ def prepare(tier, seed=1):
         if os.path.exists(pj):
             return json.load(open(pj))
         gc_work(key)
+        trim_go_cache()
         t0 = time.time()
         shutil.rmtree(wd, ignore_errors=True)
         gm = os.path.join(wd, "genmod")
